@@ -74,6 +74,17 @@ CHECKS['C05'] = dict(
          'and is NOT decided.',
     design='§3 C05', note=TB)
 
+CHECKS['C06'] = dict(
+    technique='static analysis: exhaustive evaluation of the dispatch tables by constant propagation through the dispatch functions; name-token agreement; guard-catalogue extraction of the accepted set',
+    text='Decides the finite suite matrix cell by cell, for all nine variant TUs: table geometry and the index arithmetic shared by '
+         'set_cipher_suite_id, the job API and the burst CALL_* readers; for each of the 2x256 cipher and 2x50 hash table cells that '
+         'validation accepts, the kernels reached under constant propagation of (mode, key size) carry the family of the named mode, the '
+         'key size of the job and the direction of the table half; the accepted (mode, key length) sets extracted from both validators agree '
+         'and AEAD pairings are enforced in both directions; stage bits; chain order; a cell that parks jobs in an out-of-order manager '
+         'flushes the same manager. exhaustive over the table cells. Not decided: that the kernel behind a correct cell computes the '
+         'named algorithm (C01-C03).',
+    design='§3 C06', note=TB + '; reasoned vocabularies: family tokens per enumerator, EXTRA tokens per mode, one-sided pairing list')
+
 NOT_APPLICABLE = {
     'C07': 'bounds of SIMD loads/stores relative to run-time lengths need relational numeric invariants over ~850 '
            'hand-written assembly functions; no sound static argument in reach (no frama-c; CSA/cppcheck do not see NASM)',
